@@ -279,6 +279,7 @@ class Search:
         self.classify = classify
         self.clean_edges = set()
         self.kf_edges = {}
+        self.edge_muts = {}
         self.argv = argv
         self.depth = depth
         self.max_states = max_states
@@ -344,6 +345,8 @@ class Search:
                 if dd not in succ:
                     succ.add(dd)
                     self.edge_label[(d, dd)] = label
+                self.edge_muts.setdefault((d, dd), set()).add(
+                    (p.mutator, kfe))
                 if kfe is None:
                     self.clean_edges.add((d, dd))
                     self.edge_label[(d, dd)] = label
@@ -354,6 +357,21 @@ class Search:
                     self.names[dd] = k
                     queue.append((p.result, dd, depth + 1, label))
         return self
+
+    def cycles_without(self, mutators_, also=()):
+        """Cycles of the graph restricted to edges that exist through some
+        proposal that is neither of one of ``mutators_`` nor classified as one
+        of the known-finding kinds in ``also``."""
+        adj = {}
+        for (a, b), labels in self.edge_muts.items():
+            if any(m not in mutators_ and k not in also
+                   for m, k in labels):
+                adj.setdefault(a, set()).add(b)
+        saved, self.adj = self.adj, adj
+        try:
+            return self.cycles(False)
+        finally:
+            self.adj = saved
 
     def cycles(self, clean_only=False):
         """SCCs with more than one state in the explored graph (iterative
